@@ -10,7 +10,7 @@ import warnings
 import numpy as np
 import pandas as pd
 
-from . import probes
+from . import probes, ctrl_recorder
 from .common import digest, scribble
 
 chi = probes.chi
@@ -40,6 +40,12 @@ def pop_model(kinds):
 
 
 def replay_case(arg):
+    """returns (failures, counters, recorded controller events -- for Trace_CtrlLife)"""
+    fails, cnt = _replay_case(arg)
+    return fails, cnt, ctrl_recorder.take()
+
+
+def _replay_case(arg):
     rec, seed = arg
     fails, cnt = [], {'cases': 1}
     hist = rec['hist']
@@ -56,6 +62,8 @@ def replay_case(arg):
 
     def fail(clause, manifestation, detail):
         fails.append(dict(case=dict(config=rec), clause=clause, manifestation=manifestation, detail=detail, features=feats))
+    ctrl_recorder.install(chi)
+    ctrl_recorder.take()
     try:
         with warnings.catch_warnings():
             warnings.simplefilter('ignore')
